@@ -23,6 +23,16 @@ PREFER = {"key": "soft", "value": "x", "effect": "PreferNoSchedule"}
 STARTUP = {"key": "startup.example/agent", "value": "", "effect": "NoSchedule"}
 TOL_TAINT = {"key": "dedicated", "op": "Equal", "value": "infra", "effect": "NoSchedule"}
 TOL_ALL = {"key": "", "op": "Exists", "value": "", "effect": ""}
+# well-known ephemeral taints (NoSchedule / NoExecute forms, with / without timeAdded and value) and readiness.k8s.io/* rules
+NODE_TAINTS = [
+    {"key": "node.kubernetes.io/not-ready", "value": "", "effect": "NoSchedule", "timeAdded": False},
+    {"key": "node.kubernetes.io/not-ready", "value": "", "effect": "NoExecute", "timeAdded": True},
+    {"key": "node.kubernetes.io/unreachable", "value": "", "effect": "NoSchedule", "timeAdded": False},
+    {"key": "node.kubernetes.io/unreachable", "value": "", "effect": "NoExecute", "timeAdded": True},
+    {"key": "node.cloudprovider.kubernetes.io/uninitialized", "value": "true", "effect": "NoSchedule", "timeAdded": False},
+    {"key": "readiness.k8s.io/network-ready", "value": "pending", "effect": "NoSchedule", "timeAdded": False},
+    {"key": "readiness.k8s.io/storage-ready", "value": "", "effect": "NoExecute", "timeAdded": True},
+]
 
 
 def expr(key, op, vals=(), n=0):
@@ -197,6 +207,11 @@ def gen_nodes(rng, types, pools, dss, profile):
             n["deleting"] = True
         if rng.random() < 0.25 and stage != "claimonly":
             n["csi"].append({"driver": "csi.example", "count": rng.choice([1, 2])})
+        # taints the Node object acquired after launch (not in the NodeClaim): an INITIALIZED / unmanaged node that went NotReady,
+        # unreachable or was re-tainted by a readiness rule keeps filtering; on a registered, not yet initialized node they are
+        # expected to clear
+        if stage in ("initialized", "unmanaged", "registered") and rng.random() < 0.3:
+            n["nodeTaints"] = [dict(t) for t in rng.sample(NODE_TAINTS, rng.choice([1, 1, 2]))]
         nodes.append(n)
         # bound pods
         if stage in ("initialized", "unmanaged", "registered"):
@@ -325,13 +340,17 @@ def node_archetypes(rng, types):
     def vol_two(p): p["vols"] = ["c-ab", "c-ac"]
     def host_sel(p): p["sel"]["host"] = "n0"
     def pool_sel(p): p["sel"]["pool"] = rng.choice(["p0", "p1"])
+    def tol_node_taint(p):
+        t = rng.choice(NODE_TAINTS)
+        p["tol"] = p["tol"] + [{"key": t["key"], "op": "Exists", "value": "", "effect": rng.choice(["", t["effect"]])}]
+    def tol_notready(p): p["tol"] = p["tol"] + [{"key": "node.kubernetes.io/not-ready", "op": "Exists", "value": "", "effect": ""}]
     def ct_sel(p): p["sel"]["ct"] = rng.choice(["od", "spot"])
     def zone_notin(p): p["terms"] = [[expr("zone", "NotIn", [rng.choice(ZONES)])]]
     def zone_dne(p): p["terms"] = [[expr("zone", "DoesNotExist")], [expr("zone", "In", [rng.choice(ZONES)])]]
     def arch_exists(p): p["terms"] = [[expr("arch", "Exists")]]
     def arch_sel(p): p["sel"]["arch"] = rng.choice(["amd64", "arm64"])
     def gen_sel(p): p["sel"]["gen"] = str(rng.choice([1, 2, 3, 4]))
-    return [ct_sel, zone_notin, zone_dne, arch_exists, arch_sel, gen_sel, sel_zone, two_terms, three_terms, notin_spot, team_in, team_sel, team_notin, team_dne, team_exists, gen_gt, gen_lt,
+    return [tol_node_taint, tol_notready, ct_sel, zone_notin, zone_dne, arch_exists, arch_sel, gen_sel, sel_zone, two_terms, three_terms, notin_spot, team_in, team_sel, team_notin, team_dne, team_exists, gen_gt, gen_lt,
             pref_zone_req_arch, pref_two, it_in, tolerate, tolerate_all, port80, port80ip, port81, port9100, vol_b, vol_ab, vol_ac,
             vol_any, vol_two, host_sel, pool_sel]
 
